@@ -1,8 +1,8 @@
-\* C17 design-level check (quick): Walk = Expected
+\* C17 design-level check (quick): Walk = Expected, 9 link targets x 2 mount configurations x 2 secret roots
 SPECIFICATION Spec
 CONSTANTS
   TargetIds = {1, 3, 4, 7, 9, 10, 12, 13, 15}
-  MountCfgIds = {2, 3, 5, 6}
+  MountCfgIds = {3, 5}
   SecretIds = {2, 4}
 INVARIANTS WalkRefinesExpected
 CHECK_DEADLOCK FALSE
